@@ -36,8 +36,8 @@ Proof. solve_emit_one (Some 16) true. Qed.
 
 Lemma emit_align enc c addr :
   emit enc (DMeta ".align" [(false, c)]) addr =
-  one_cooked (get_as_int None true None c) (fun c => of_res (body_align addr c)).
-Proof. solve_emit_one (@None Z) true. Qed.
+  one_cooked (get_as_int (Some 16) true None c) (fun c => of_res (body_align addr c)).
+Proof. solve_emit_one (Some 16) true. Qed.
 
 Lemma emit_even enc addr : emit enc (DMeta ".even" []) addr = of_res (body_even addr).
 Proof.
@@ -126,17 +126,21 @@ Qed.
 Lemma gai_uint c : get_as_int None true None c = if c <? 0 then Err [oob] else Ok c.
 Proof. unfold get_as_int. rewrite get_as_int_unbounded. simpl. destruct (c <? 0); reflexivity. Qed.
 
+(* the count is a uint16, like the counts of .blkb / .blkw: outside 0..65535 it is refused *)
+Lemma align_refuse enc c addr : c < 0 \/ 65536 <= c -> emit enc (DMeta ".align" [(false, c)]) addr = voob.
+Proof. intros H. rewrite emit_align, (gai_uint16_err c H). reflexivity. Qed.
+
 Lemma align_negative enc c addr : c < 0 -> emit enc (DMeta ".align" [(false, c)]) addr = voob.
-Proof. intros H. rewrite emit_align, gai_uint. replace (c <? 0) with true by lia. reflexivity. Qed.
+Proof. intros H. apply align_refuse. left. exact H. Qed.
 
 (* count 0: an error diagnostic, not a ZeroDivisionError *)
 Lemma align_zero enc addr : emit enc (DMeta ".align" [(false, 0)]) addr = Out [(E, oob)] [].
-Proof. rewrite emit_align, gai_uint. reflexivity. Qed.
+Proof. rewrite emit_align, (gai_uint16_ok 0) by lia. reflexivity. Qed.
 
-Lemma align_pos enc c addr : 1 <= c ->
+Lemma align_pos enc c addr : 1 <= c < 65536 ->
   emit enc (DMeta ".align" [(false, c)]) addr = Out [] (zero_bytes (Z.to_nat ((- addr) mod c))).
 Proof.
-  intros H. rewrite emit_align, gai_uint. replace (c <? 0) with false by lia.
+  intros H. rewrite emit_align, (gai_uint16_ok c) by lia.
   unfold one_cooked, body_align, rz_eqb, rb_mul, rz_mod, rz_neg, py_mod. simpl bind.
   replace (c =? 0) with false by lia. cbn [bind]. replace (c =? 0) with false by lia. simpl.
   unfold bytes_mul. rewrite concat_repeat_1. reflexivity.
